@@ -67,7 +67,9 @@ def _api_scenario(draw, gen: int):
     inst2 = draw(con.installation(gen, max_acs=2))
     state2 = draw(con.full_state(inst2))
     return {"mode": "api", "inst": inst, "state": state, "script": script, "behaviour": beh, "losses": sorted(losses),
-            "inst2": inst2, "state2": state2, "reinit": draw(st.booleans())}
+            "inst2": inst2, "state2": state2, "reinit": draw(st.booleans()),
+            # seconds a TCP close takes to complete: shutdown()'s own close then spans scenario events (heartbeat ticks ...)
+            "close_latency": draw(st.sampled_from([0.0, 0.0, 0.125, 1.0]))}
 
 
 @st.composite
@@ -78,6 +80,7 @@ def _when(draw):
 
 def _mk_api(case):
     rig = ApiRig(case["inst"], case["state"], case["behaviour"], connect_script=[tuple(e) for e in case["script"]])
+    rig.net.close_latency = case.get("close_latency", 0.0)
 
     def lose(k, lat):
         tr = rig.net.current
@@ -313,13 +316,15 @@ def _sock_scenario(draw, gen: int):
     sends = draw(st.lists(st.tuples(st.integers(0, 12 * 16).map(lambda x: x / 16.0), sockops.kind_and_params(gen),
                                     st.sampled_from(["idem", "nonidem", "conn", [1, 60.0]])).map(list), max_size=10))
     losses = draw(st.lists(st.tuples(st.integers(1, 20 * 16).map(lambda x: x / 16.0), st.integers(0, 3)).map(list), max_size=2))
-    return {"mode": "sock", "gen": gen, "script": script, "sends": sorted(sends, key=lambda s: s[0]), "losses": sorted(losses)}
+    return {"mode": "sock", "gen": gen, "script": script, "sends": sorted(sends, key=lambda s: s[0]), "losses": sorted(losses),
+            "close_latency": draw(st.sampled_from([0.0, 0.0, 0.125, 1.0]))}
 
 
 def _mk_sock(case):
     rig = SockRig(case["gen"])
     for e in case["script"]:
         rig.net.script.append(tuple(e))
+    rig.net.close_latency = case.get("close_latency", 0.0)
     handles = []
 
     def send(kp, pol):
@@ -400,6 +405,7 @@ def check_sock(case, when, stats: Stats | None):
 def _mk_sock_on(rig, case):
     for e in case["script"]:
         rig.net.script.append(tuple(e))
+    rig.net.close_latency = case.get("close_latency", 0.0)
     handles = []
 
     def send(kp, pol):
